@@ -343,10 +343,19 @@ def state_tables() -> tuple[str, dict]:
                 t = re.sub(rf"(?<![\w.]){re.escape(a_)}(?!\w)", f"arg{i_}", t)
             return " ".join(t.split())
         out_ = []
+        q = q.split(".")[0] if "." in q else "module"        # the owning class: helper extraction / inlining is followed
         for n in ast.walk(fn):
-            if isinstance(n, (ast.If, ast.While, ast.IfExp)):
+            if isinstance(n, (ast.If, ast.IfExp)) and isinstance(n.test, ast.Compare) and len(n.test.ops) == 1 \
+                    and isinstance(n.test.ops[0], (ast.Is, ast.IsNot)) and ast.unparse(n.test.comparators[0]) == "None" \
+                    and isinstance(n.test.left, ast.Name) and n.test.left.id in params:
+                if everything:
+                    out_.append((q, "If", "optional argument given"))       # either polarity, `if` or conditional expression
+            elif isinstance(n, ast.If) and len(n.body) == 1 and isinstance(n.body[0], ast.Break) and not n.orelse:
+                if everything:
+                    out_.append((q, "If", "break"))                          # what is tested: `cg_loop_shape`
+            elif isinstance(n, (ast.If, ast.While, ast.IfExp)):
                 if everything or mode_pat.search(ast.unparse(n.test)):
-                    out_.append((q, type(n).__name__, norm(n.test)))
+                    out_.append((q, "If" if isinstance(n, ast.IfExp) else type(n).__name__, norm(n.test)))
             elif isinstance(n, (ast.For, ast.AsyncFor)):
                 out_.append((q, "For", norm(n.iter)))
             elif isinstance(n, (ast.ListComp, ast.GeneratorExp, ast.SetComp, ast.DictComp)):
@@ -389,8 +398,8 @@ def state_tables() -> tuple[str, dict]:
             "/-- in-place operations in those functions: augmented assignments, stores into an argument, `x.op_()` calls, `out=` -/\n"
             f"def dc_block_inplace : List (String × String) := [{inplace_rows}]\n"
             "/-- EVERY branch / loop / comprehension / try / with of the functions reachable from `MRILogLikelihood.forward` and\n"
-            "`ConjGrad.forward` (+ the shape- or mode-dependent ones of the tensor helpers): (function, kind, test with the\n"
-            "parameters numbered) -/\n"
+            "`ConjGrad.forward` (+ the shape- or mode-dependent ones of the tensor helpers): (owning class, kind, what is tested\n"
+            "— `optional argument given` / `break` / the test with the parameters numbered), duplicates removed -/\n"
             f"def dc_block_control : List (String × String × String) :=\n  [{ctl(block_ctl)}]\n"
             "/-- the other data-consistency classes: every loop, and every branch / comprehension whose test mentions the mode\n"
             "(`training`, grad mode), a shape (`shape`, `size`, `len`, `ndim`), a dtype / device, or splits / chunks a tensor -/\n"
